@@ -309,7 +309,7 @@ RT_FUNCS = {'vf_in_u32','vf_assume','vf_assert','vf_witness','vf_obs','vf_alloca
   'vf_tr_make','vf_tr_default','vf_tr_copy','vf_tr_move','vf_tr_cassign','vf_tr_massign','vf_tr_swap','vf_tr_dtor',
   'vf_tr_state','vf_tr_touch','vf_tr_val','vf_tr_live','vf_tr_events','vf_tr_count',
   'vf_stream_init','vf_stream_cursor','vf_stream_deref','vf_stream_inc','vf_stream_cmp','vf_stream_derefs','vf_stream_incs','vf_stream_len',
-  'vf_new','vf_delete'}
+  'vf_deallocate_unsized'}
 # external C++ runtime functions that are modelled as no-ops (exception object ctors/dtors)
 NOOP_EXTERNALS = {'_ZNSt12length_errorC1EPKc','_ZNSt12length_errorD1Ev','_ZNSt12out_of_rangeC1EPKc','_ZNSt12out_of_rangeD1Ev',
   '_ZNSt9bad_allocD1Ev','_ZNSt20bad_array_new_lengthD1Ev', '_ZNSt11logic_errorC1EPKc', '_ZNSt11logic_errorD1Ev'}
@@ -955,14 +955,18 @@ def s_ins(ctx, b, t):
             if msg is None: raise RuntimeError('vf_witness with a non-literal message (merged call sites?)')
             stmt = 'VF_WITNESS("witness: %s");' % msg; throws = False
         elif base in ('_Znwm', '_Znam'):
-            assign(rty, 'vf_new(%s)' % args[0]);
+            # std::allocator<T>::allocate(n) = operator new(n * sizeof(T)): typed block of n elements of the first configured element type
+            if not E.elems: raise RuntimeError('operator new without a configured element type')
+            ety = E.elems[0]; esz = E.sizeof(ety)
+            E.notes['operator new -> typed allocation %s' % E.cty(ety)] += 1
+            setv(dst, rty)
+            lines.append('VF_RT_ASSERT(%s %% %d == 0, "translator: operator new size is not a multiple of the element size"); v_%s = (u8*)vf_ledger_add(0, %s / %d, %s(%s / %d));' % (args[0], esz, san(dst), args[0], esz, E.copy_helper('talloc', ety), args[0], esz))
             if op == 'invoke':
                 p.expect('to'); p.expect('label'); ln = p.next(); p.expect('unwind'); p.expect('label'); lu = p.next()
-                lines.append('if (vf_exc_active) %s else %s' % (edge(b, lu), edge(b, ln)))
-            else: lines.append('if (vf_exc_active) return %s;' % retzero)
+                lines.append(edge(b, ln))
             return
         elif base in ('_ZdlPv', '_ZdaPv', '_ZdlPvm', '_ZdaPvm'):
-            stmt = 'vf_delete(%s);' % args[0]; throws = False
+            stmt = 'vf_deallocate_unsized((void*)%s);' % args[0]; throws = False
         if stmt is None:
             cargs = []
             for a, aty in zip(args, argtys):
@@ -1087,7 +1091,6 @@ typedef void (*fnptr_t)(void);
 extern int vf_exc_active; extern int vf_exc_sel; extern void *vf_exc_obj;
 void vf_throw(void *obj, int tid); void vf_rethrow(void); void vf_terminate(void);
 u8 *vf_begin_catch(u8 *); void vf_end_catch(void); u8 *vf_alloc_exception(u64); void vf_free_exception(u8 *);
-u8 *vf_new(u64); void vf_delete(u8 *);
 #ifdef __CPROVER__
 #define VF_ASSERT(c, m) __CPROVER_assert((c), m)
 #define VF_WITNESS(m) __CPROVER_assert(0, m)
